@@ -26,7 +26,7 @@ FACTOR = 20.0
 
 
 def floors(tier):
-    return {"runs": 400, "runs_with_bound_at_start": 150, "runs_with_active_bound_at_end": 150, "outward_start_runs": 60, "lattice_least_squares_runs": 60, "runs_with_inert_differencing_settings": 100, "runs_with_free_optimum_grazing_a_bound": 60, "__nontrivial__": 150}
+    return {"runs": 400, "runs_with_bound_at_start": 150, "runs_with_active_bound_at_end": 150, "outward_start_runs": 60, "lattice_least_squares_runs": 60, "runs_with_inert_differencing_settings": 100, "runs_continued_from_a_target_stop": 150, "runs_with_free_optimum_grazing_a_bound": 60, "__nontrivial__": 150}
 
 
 def exhaustive(tier):
@@ -41,13 +41,17 @@ def cases(tier, seed):
         ps = gen.rand_spec(rng, gen.CONVEX, nmax=12, nmin=1,
                            boxes=("none", "mixed", "mixed", "boxed", "narrow", "lower", "upper", "boxed_degenerate", "nonneg", "unit", "zero_mixed"),
                            starts=("interior", "face", "vertex", "outward", "outward"))
-        yield {"kind": "random", "problem": ps, "maxcor": int(rng.integers(1, 11)), "fd_step": float(gen.pick(rng, [1e-3, 1e-2, 0.1])) if i % 5 == 3 else None}
+        yield {"kind": "random", "problem": ps, "maxcor": int(rng.integers(1, 11)), "fd_step": float(gen.pick(rng, [1e-3, 1e-2, 0.1])) if i % 5 == 3 else None,
+               "target_frac": float(rng.uniform(0.05, 0.7)) if i % 3 == 0 else None, "restart_maxcor": int(rng.integers(1, 11))}
     for i in range(200 if tier == "quick" else 6000):
         yield {"kind": "lattice", "problem": {"n": int(rng.integers(1, 7)), "seed": int(rng.integers(0, 2**31 - 1)), "w": float(gen.pick(rng, [1.0, 1.0, 1.0, 0.5, 2.0, 3.0])),
                                               "cut": bool(rng.random() < 0.4)}, "maxcor": int(rng.integers(1, 11))}
     for i in range(200 if tier == "quick" else 6000):
         yield {"kind": "near_bound", "problem": {"n": int(rng.integers(1, 9)), "seed": int(rng.integers(0, 2**31 - 1)), "cond": float(np.exp(rng.uniform(0, np.log(1e3))))},
                "maxcor": int(rng.integers(1, 11))}
+    # (a "walled quadratic" family - flat quadratic plus exp walls that overflow to +inf at far trial points - was tried for seeded change
+    #  C01-r5B and is NOT generated: an objective that is +inf on part of the box is outside the premise "smooth", and the unchanged tree
+    #  already ends 25 of 120 such runs with two consecutive failed searches far from stationarity; see DESIGN.md 10.3, observations)
     nmax = 2 if tier == "quick" else 3
     for n in range(1, nmax + 1):
         for pos in itertools.product((0, 1, 2), repeat=n):
@@ -87,6 +91,41 @@ def make_lattice_lsq(spec):
 
     meta = dict(L=lambda x: 2.0 * w, Fabs=lambda x: float(w * np.sum((x - a) ** 2)), convex=True)
     return gen.Problem(dict(family="lattice_lsq", n=n, seed=spec["seed"], box="boxed", start="lattice"), n, f, g, lo, hi, x0, meta)
+
+
+def make_walled_quadratic(spec):
+    """0.5*k*|x - a|^2 + sum exp(c*(x_i - w_i)): smooth and strictly convex; the flat quadratic pulls the variables far beyond the steep
+    exponential walls, so long quasi-Newton steps land where the objective overflows to +inf, more than once per run."""
+    rng = np.random.default_rng(spec["seed"])
+    n = spec["n"]
+    k = float(np.exp(rng.uniform(np.log(3e-3), np.log(5e-2))))
+    a = rng.uniform(50.0, 150.0, n)
+    c = float(rng.uniform(20.0, 60.0))
+    w = rng.uniform(1.0, 5.0, n)
+    x0 = -rng.uniform(0.0, 200.0, n)
+    if spec.get("boxed"):
+        lb, ub = np.full(n, -300.0), np.full(n, 200.0)
+    else:
+        lb, ub = np.full(n, -np.inf), np.full(n, np.inf)
+
+    def f(x):
+        with np.errstate(over="ignore"):
+            return float(0.5 * k * np.sum((x - a) ** 2) + np.sum(np.exp(c * (x - w))))
+
+    def g(x):
+        with np.errstate(over="ignore"):
+            return k * (x - a) + c * np.exp(c * (x - w))
+
+    def L(x):
+        with np.errstate(over="ignore"):
+            return float(k + c * c * np.max(np.exp(c * (x - w))))
+
+    def Fabs(x):
+        with np.errstate(over="ignore"):
+            return float(0.5 * k * np.sum((x - a) ** 2) + np.sum(np.exp(c * (x - w))))
+
+    return gen.Problem(dict(family="walled_quadratic", n=n, seed=spec["seed"], box="boxed" if spec.get("boxed") else "none", start="far"), n, f, g, lb, ub, x0,
+                       dict(L=L, Fabs=Fabs, convex=True))
 
 
 def make_near_bound_optimum(spec):
@@ -142,6 +181,9 @@ def run(spec):
     if spec["kind"] == "lattice":
         P = make_lattice_lsq(spec["problem"])
         out.count("lattice_least_squares_runs")
+    elif spec["kind"] == "walled":
+        P = make_walled_quadratic(spec["problem"])
+        out.count("runs_on_convex_objective_overflowing_at_far_trial_points")
     elif spec["kind"] == "near_bound":
         P = make_near_bound_optimum(spec["problem"])
         out.count("runs_with_free_optimum_grazing_a_bound")
@@ -156,6 +198,18 @@ def run(spec):
     tr = probes.run_min(P, cfg)
     where = f"{P.spec['family']} n={P.n} box={P.spec.get('box')} start={P.spec.get('start')} maxcor={spec['maxcor']}"
     pg = judge(out, P, tr, where)
+    if spec.get("target_frac") is not None and tr.result is not None and not out.violations:
+        # the same problem solved in two legs: first down to a target value between f(x0) and the optimum, then continued from the
+        # returned result under the premise of the statement (gradient tolerance only, ample budget, possibly another memory size)
+        f0v = P.f(np.clip(P.x0, P.lb, P.ub))
+        fs = float(tr.result.fun)
+        if np.isfinite(f0v) and f0v > fs:
+            leg1 = probes.run_min(P, dict(cfg, ftarget=fs + spec["target_frac"] * (f0v - fs)))
+            if leg1.result is not None and "TARGET" in str(leg1.result.message):
+                out.count("runs_continued_from_a_target_stop")
+                leg2 = probes.run_min(P, dict(cfg, maxcor=spec.get("restart_maxcor", spec["maxcor"])), checkpoint=leg1.result,
+                                      x0=np.array(leg1.result.x, dtype=float, copy=True))
+                judge(out, P, leg2, where + " continued from a target stop")
     out.count("runs")
     at_start = bool(np.any((P.x0 == P.lb) | (P.x0 == P.ub)))
     g0 = P.g(P.x0)
